@@ -37,6 +37,9 @@ def run(tier):
                 "descending grid is compared with the reference using signed steps) or raise before any kernel runs; plain "
                 "drivers are unrolled under accept/reject tapes against the reference sampling protocol.",
                 trusted_base=["python ast", "hv.kpe", "hv.drivers harness", "reference protocols in hv/rules/drv.py"])
+    # a propagation served from the system's cache is the one that was asked for (direction, span, method, order all in the key)
+    from . import c20
+    c20._b_key_params(Relabel(chk, {"C20.b": "C10.a-cache"}), [x for x in c20._sites() if x.mod.name.endswith("services.system")])
     _a_integrate_times(chk)
     _a_propagate(chk)
     c03._directed_semantics(_Relabel(chk), signed_time=True)
